@@ -27,7 +27,7 @@ import (
 // the source lines of the two accesses.
 
 type c35Input struct {
-	Scn     string   `json:"scn"`               // sentcache | fileconfig | watcher | collector | collector_start | stress | peers | transmit
+	Scn     string   `json:"scn"`               // sentcache | fileconfig | watcher | collector | collector_start | stress | peers | transmit | router
 	Seed    int64    `json:"seed"`              // PRNG seed of the scenario's own choices (trace ids, sizes)
 	G       int      `json:"g"`                 // goroutines per activity
 	Ops     int      `json:"ops"`               // operations per goroutine
@@ -49,15 +49,17 @@ var c35Scenarios = map[string][]string{
 	"stress":          {"readers", "update", "gauges", "peermsg"},
 	"peers":           {"messages", "getpeers", "register"},
 	"transmit":        {"enqueue", "multi"},
+	"router":          {"batch", "event", "query", "health"},
 }
 
 func c35Gen(r *rand.Rand, tier string, i int) any {
-	// every scenario kind is visited round-robin so that the quick tier covers all of them
-	kinds := []string{"sentcache", "fileconfig", "watcher", "collector", "collector_start", "stress", "peers", "transmit"}
+	// scenario kinds round-robin; the kinds that have no corpus witness come first so that the quick
+	// tier (5 generated cases + the corpus) visits every kind
+	kinds := []string{"stress", "transmit", "router", "collector", "sentcache", "peers", "fileconfig", "watcher", "collector_start"}
 	scn := kinds[i%len(kinds)]
 	in := c35Input{Scn: scn, Seed: r.Int63n(1 << 30)}
 	in.G = 2 + r.Intn(3)
-	in.Ops = 150 + r.Intn(200)
+	in.Ops = 100 + r.Intn(120)
 	if tier == "thorough" {
 		in.G = 2 + r.Intn(6)
 		in.Ops = 500 + r.Intn(3000)
